@@ -8,6 +8,8 @@ CONSTANTS
  LookNames <- LookAB
  Ops <- OpsNav
  Roots <- RootsOA
+ HistK = 0
+ NavScope = "C06"
  EmitOn = FALSE
 VIEW View
 INVARIANTS Refines FormatTheorems TranscribeOK
